@@ -829,3 +829,28 @@ impl ExecutionClient for ScriptClient {
         Ok(vec![])
     }
 }
+
+// ------------------------------------------------------------------------------------------------
+// LIFE CYCLE: the engine state is `Serialize + Deserialize` (it is what an operator persists and what an audit snapshot
+// ships): replace it, in the middle of a history, by the copy restored from its own JSON. The copy must equal the
+// original (`==`), and the history carries on with the copy - so anything a restored state does differently later is
+// judged by the monitor's ordinary oracles.
+
+/// `Ok(true)`: persisted, restored, equal, replaced. `Ok(false)`: this value does not serialise to JSON at all (not
+/// judged; the whole `EngineState` is such a value: some of its maps have structured keys). `Err(_)`: the restored
+/// copy differs from the persisted value.
+pub fn persist_and_restore<T>(what: &str, value: &mut T) -> Result<bool, String>
+where
+    T: serde::Serialize + serde::de::DeserializeOwned + PartialEq + std::fmt::Debug,
+{
+    let Ok(text) = serde_json::to_string(value) else {
+        return Ok(false);
+    };
+    let back: T = serde_json::from_str(&text).map_err(|e| format!("the persisted {what} does not load from its own JSON: {e}"))?;
+    if &back != value {
+        let shown: String = format!("restored {back:?}, persisted {value:?}").chars().take(2000).collect();
+        return Err(format!("the {what} restored from its own JSON differs from the persisted one: {shown}"));
+    }
+    *value = back;
+    Ok(true)
+}
